@@ -2,7 +2,8 @@
 goal states in state_list.  Used by C01 (XML reader) and C02 (protobuf reader, both writers)."""
 import ast
 
-from .core import AnalysisError, call_name, norm, walk_no_nested
+from .core import AnalysisError, call_name, canon, norm, walk_no_nested
+from .dataflow import ReachingDefs
 
 
 def goal_table_keys(fn):
@@ -71,17 +72,25 @@ def _after(stmt, first, second):
 
 
 def writer_goal_keys(fn, table_attr="lanelets_of_goal_position"):
-    """[(subscript node, ok)] — the writer must look the table up with the enumerate index of goal.state_list"""
+    """[(subscript node, ok)] — the writer must look the table up with the enumerate index of goal.state_list
+    (locals that alias the table or the goal region are seen through)"""
     out = []
-    loops = [lp for lp in walk_no_nested(fn) if isinstance(lp, ast.For) and isinstance(lp.iter, ast.Call) and call_name(lp.iter) == "enumerate" and lp.iter.args and norm(lp.iter.args[0]).endswith("state_list")]
+    rd = ReachingDefs(fn)
+
+    def cn(e, at=None):
+        return canon(e, rd, at if at is not None else rd.stmt_of(e), [])
+
+    loops = [lp for lp in walk_no_nested(fn) if isinstance(lp, ast.For) and isinstance(lp.iter, ast.Call) and call_name(lp.iter) == "enumerate" and lp.iter.args and cn(lp.iter.args[0], lp).endswith("state_list")]
     if len(loops) != 1 or not isinstance(loops[0].target, ast.Tuple):
         raise AnalysisError("%s: expected one enumerate loop over the goal state list" % fn.name)
     iv = norm(loops[0].target.elts[0])
     for x in ast.walk(loops[0]):
-        if isinstance(x, ast.Subscript) and norm(x.value).endswith(table_attr):
+        if isinstance(x, ast.Subscript) and cn(x.value).endswith(table_attr):
             out.append((x, norm(x.slice) == iv))
-        if isinstance(x, ast.Compare) and len(x.ops) == 1 and isinstance(x.ops[0], ast.In) and norm(x.comparators[0]).endswith(table_attr):
+        if isinstance(x, ast.Compare) and len(x.ops) == 1 and isinstance(x.ops[0], ast.In) and cn(x.comparators[0]).endswith(table_attr):
             out.append((x, norm(x.left) == iv))
+        if isinstance(x, ast.Call) and isinstance(x.func, ast.Attribute) and x.func.attr == "get" and cn(x.func.value).endswith(table_attr) and x.args:
+            out.append((x, norm(x.args[0]) == iv))
     if not out:
         raise AnalysisError("%s: the goal-lanelet table is never consulted" % fn.name)
     return out
